@@ -72,6 +72,13 @@ func classifyErr(e any) string {
 // roundTrip converts t to STEF with the chosen writer-side converter, and back with the chosen
 // reader-side converter.
 func roundTrip(t Metrics, wSorted, rSorted bool, opts pkg.WriterOptions, wantRecords bool) (res rtResult) {
+	return roundTripSeq(nil, t, wSorted, rSorted, opts, wantRecords)
+}
+
+// roundTripSeq: as roundTrip, but the batches in `before` are converted first with the SAME
+// converter and the SAME writer (as the collector exporter does: one converter, one writer, many
+// batches), each followed by a Flush. res.out then holds the data points of all batches.
+func roundTripSeq(before []Metrics, t Metrics, wSorted, rSorted bool, opts pkg.WriterOptions, wantRecords bool) (res rtResult) {
 	src := BuildMetrics(t)
 	buf := &pkg.MemChunkWriter{}
 	func() {
@@ -90,6 +97,16 @@ func roundTrip(t Metrics, wSorted, rSorted bool, opts pkg.WriterOptions, wantRec
 			conv = &stefmetrics.OtlpToStefSorted{}
 		} else {
 			conv = &stefmetrics.OtlpToStefUnsorted{}
+		}
+		for _, b := range before {
+			if err := conv.Convert(BuildMetrics(b), writer); err != nil {
+				res.err = "w:" + classifyErr(err)
+				return
+			}
+			if err := writer.Flush(); err != nil {
+				res.err = "w:" + classifyErr(err)
+				return
+			}
 		}
 		if err := conv.Convert(src, writer); err != nil {
 			res.err = "w:" + classifyErr(err)
@@ -307,4 +324,17 @@ func failKey(vs [4]verdict) string {
 		}
 	}
 	return strings.Join(parts, ",")
+}
+
+// evalMetricsSeq: the batch `prev` and then `t` through ONE converter and ONE writer, all four
+// combinations; the data points that come back must be those of both batches.
+func evalMetricsSeq(prev, t Metrics, opts pkg.WriterOptions) [4]verdict {
+	all := Metrics{RMs: append(append([]RM(nil), prev.RMs...), t.RMs...)}
+	var vs [4]verdict
+	for i, c := range combos {
+		r := roundTripSeq([]Metrics{prev}, t, c.wSorted, c.rSorted, opts, false)
+		r.srcAfter = all // the source check is done by the single-batch evaluation
+		vs[i] = checkRoundTrip(all, r)
+	}
+	return vs
 }
